@@ -1,0 +1,114 @@
+//go:build verif
+
+// Contracts for the verifier in /verif (comment-only file; contributes no declarations).
+package streamconfig
+
+// C08: a configuration payload. Parsing decodes every section that is given (or fails), saving writes every decoded
+// section to its place on the (ghost) disk: after a successful parse + save the disk holds what was sent.
+// b64(s): the bytes a base64 string stands for (encoding/base64 is trusted)
+//@ ghost func b64(s string) []byte
+//@ extern Encoding.DecodeString
+//@   modifies nothing
+//@   ensures result1 == nil ==> result0 == b64(s)
+
+//@ func (*ConfigurationPayload).parseFlows
+//@   prop C08
+//@   requires applyFlows != nil && applyFlows.parsedFlows != nil
+//@   modifies mapof(applyFlows.parsedFlows)
+//@   loop 1 modifies mapof(applyFlows.parsedFlows)
+//@   loop 1 invariant[decoded-so-far] forall(n, string, in(n, seen1) ==> in(n, applyFlows.parsedFlows) && applyFlows.parsedFlows[n] == b64(applyFlows.Flows[n]))
+//@   ensures[every-given-file-decoded] result == nil && applyFlows.Flows != nil ==> forall(n, string, in(n, applyFlows.Flows) ==> in(n, applyFlows.parsedFlows) && applyFlows.parsedFlows[n] == b64(applyFlows.Flows[n]))
+
+//@ func (*ConfigurationPayload).saveFlows
+//@   prop C08
+//@   requires applyFlows != nil && fileSysOp != nil
+//@   modifies fsdom, fsys
+//@   loop 1 modifies fsdom, fsys
+//@   loop 1 invariant[written-so-far] forall(n, string, in(n, seen1) ==> fsdom[flowPath(n)] && exists(n2, string, in(n2, applyFlows.parsedFlows) && flowPath(n2) == flowPath(n) && fsys[flowPath(n)] == applyFlows.parsedFlows[n2]))
+//@   loop 1 invariant[only-its-directory] forall(p, string, (forall(n, string, in(n, applyFlows.parsedFlows) ==> p != flowPath(n))) ==> fsdom[p] == old(fsdom)[p] && fsys[p] == old(fsys)[p])
+//@   ensures[every-decoded-file-on-disk] result == nil && applyFlows.Flows != nil ==> forall(n, string, in(n, applyFlows.parsedFlows) ==> fsdom[flowPath(n)] && exists(n2, string, in(n2, applyFlows.parsedFlows) && flowPath(n2) == flowPath(n) && fsys[flowPath(n)] == applyFlows.parsedFlows[n2]))
+//@   ensures[only-its-directory] forall(p, string, (forall(n, string, in(n, applyFlows.parsedFlows) ==> p != flowPath(n))) ==> fsdom[p] == old(fsdom)[p] && fsys[p] == old(fsys)[p])
+
+//@ func (*ConfigurationPayload).parseQuotas
+//@   prop C08
+//@   requires applyFlows != nil && applyFlows.parsedQuotas != nil
+//@   modifies mapof(applyFlows.parsedQuotas)
+//@   loop 1 modifies mapof(applyFlows.parsedQuotas)
+//@   loop 1 invariant[decoded-so-far] forall(n, string, in(n, seen1) ==> in(n, applyFlows.parsedQuotas) && applyFlows.parsedQuotas[n] == b64(applyFlows.Quotas[n]))
+//@   ensures[every-given-file-decoded] result == nil && applyFlows.Quotas != nil ==> forall(n, string, in(n, applyFlows.Quotas) ==> in(n, applyFlows.parsedQuotas) && applyFlows.parsedQuotas[n] == b64(applyFlows.Quotas[n]))
+
+//@ func (*ConfigurationPayload).saveQuotas
+//@   prop C08
+//@   requires applyFlows != nil && fileSysOp != nil
+//@   modifies fsdom, fsys
+//@   loop 1 modifies fsdom, fsys
+//@   loop 1 invariant[written-so-far] forall(n, string, in(n, seen1) ==> fsdom[quotaPath(n)] && exists(n2, string, in(n2, applyFlows.parsedQuotas) && quotaPath(n2) == quotaPath(n) && fsys[quotaPath(n)] == applyFlows.parsedQuotas[n2]))
+//@   loop 1 invariant[only-its-directory] forall(p, string, (forall(n, string, in(n, applyFlows.parsedQuotas) ==> p != quotaPath(n))) ==> fsdom[p] == old(fsdom)[p] && fsys[p] == old(fsys)[p])
+//@   ensures[every-decoded-file-on-disk] result == nil && applyFlows.Quotas != nil ==> forall(n, string, in(n, applyFlows.parsedQuotas) ==> fsdom[quotaPath(n)] && exists(n2, string, in(n2, applyFlows.parsedQuotas) && quotaPath(n2) == quotaPath(n) && fsys[quotaPath(n)] == applyFlows.parsedQuotas[n2]))
+//@   ensures[only-its-directory] forall(p, string, (forall(n, string, in(n, applyFlows.parsedQuotas) ==> p != quotaPath(n))) ==> fsdom[p] == old(fsdom)[p] && fsys[p] == old(fsys)[p])
+
+//@ func (*ConfigurationPayload).parsePathParams
+//@   prop C08
+//@   requires applyFlows != nil && applyFlows.parsedPathParams != nil
+//@   modifies mapof(applyFlows.parsedPathParams)
+//@   loop 1 modifies mapof(applyFlows.parsedPathParams)
+//@   loop 1 invariant[decoded-so-far] forall(n, string, in(n, seen1) ==> in(n, applyFlows.parsedPathParams) && applyFlows.parsedPathParams[n] == b64(applyFlows.PathParams[n]))
+//@   ensures[every-given-file-decoded] result == nil && applyFlows.PathParams != nil ==> forall(n, string, in(n, applyFlows.PathParams) ==> in(n, applyFlows.parsedPathParams) && applyFlows.parsedPathParams[n] == b64(applyFlows.PathParams[n]))
+
+//@ func (*ConfigurationPayload).savePathParams
+//@   prop C08
+//@   requires applyFlows != nil && fileSysOp != nil
+//@   modifies fsdom, fsys
+//@   loop 1 modifies fsdom, fsys
+//@   loop 1 invariant[written-so-far] forall(n, string, in(n, seen1) ==> fsdom[paramsPath(n)] && exists(n2, string, in(n2, applyFlows.parsedPathParams) && paramsPath(n2) == paramsPath(n) && fsys[paramsPath(n)] == applyFlows.parsedPathParams[n2]))
+//@   loop 1 invariant[only-its-directory] forall(p, string, (forall(n, string, in(n, applyFlows.parsedPathParams) ==> p != paramsPath(n))) ==> fsdom[p] == old(fsdom)[p] && fsys[p] == old(fsys)[p])
+//@   ensures[every-decoded-file-on-disk] result == nil && applyFlows.PathParams != nil ==> forall(n, string, in(n, applyFlows.parsedPathParams) ==> fsdom[paramsPath(n)] && exists(n2, string, in(n2, applyFlows.parsedPathParams) && paramsPath(n2) == paramsPath(n) && fsys[paramsPath(n)] == applyFlows.parsedPathParams[n2]))
+//@   ensures[only-its-directory] forall(p, string, (forall(n, string, in(n, applyFlows.parsedPathParams) ==> p != paramsPath(n))) ==> fsdom[p] == old(fsdom)[p] && fsys[p] == old(fsys)[p])
+
+//@ func (*ConfigurationPayload).parseGatewayConfig
+//@   prop C08
+//@   requires applyFlows != nil
+//@   modifies applyFlows.parsedGatewayConfig
+//@   ensures[decoded-when-given] result == nil && applyFlows.GatewayConfig != "" ==> applyFlows.parsedGatewayConfig == b64(applyFlows.GatewayConfig)
+//@   ensures[untouched-otherwise] result != nil || applyFlows.GatewayConfig == "" ==> applyFlows.parsedGatewayConfig == old(applyFlows.parsedGatewayConfig)
+
+//@ func (*ConfigurationPayload).saveGatewayConfig
+//@   prop C08
+//@   requires applyFlows != nil && fileSysOp != nil
+//@   modifies fsdom, fsys
+//@   ensures[on-disk-when-given] result == nil && applyFlows.GatewayConfig != "" ==> fsdom[gatewayPath()] && fsys[gatewayPath()] == applyFlows.parsedGatewayConfig
+//@   ensures[only-its-file] forall(p, string, p != gatewayPath() ==> fsdom[p] == old(fsdom)[p] && fsys[p] == old(fsys)[p])
+
+//@ func (*ConfigurationPayload).parseMetricsConfig
+//@   prop C08
+//@   requires applyFlows != nil
+//@   modifies applyFlows.parsedMetrics
+//@   ensures[decoded-when-given] result == nil && applyFlows.Metrics != "" ==> applyFlows.parsedMetrics == b64(applyFlows.Metrics)
+//@   ensures[untouched-otherwise] result != nil || applyFlows.Metrics == "" ==> applyFlows.parsedMetrics == old(applyFlows.parsedMetrics)
+
+//@ func (*ConfigurationPayload).saveMetricsConfig
+//@   prop C08
+//@   requires applyFlows != nil && fileSysOp != nil
+//@   modifies fsdom, fsys
+//@   ensures[on-disk-when-given] result == nil && applyFlows.Metrics != "" ==> fsdom[metricsPath()] && fsys[metricsPath()] == applyFlows.parsedMetrics
+//@   ensures[only-its-file] forall(p, string, p != metricsPath() ==> fsdom[p] == old(fsdom)[p] && fsys[p] == old(fsys)[p])
+
+// the whole payload
+//@ ghost func decodedOK(a *ConfigurationPayload) bool = (a.Flows != nil ==> forall(n, string, in(n, a.Flows) ==> in(n, a.parsedFlows) && a.parsedFlows[n] == b64(a.Flows[n]))) && (a.Quotas != nil ==> forall(n, string, in(n, a.Quotas) ==> in(n, a.parsedQuotas) && a.parsedQuotas[n] == b64(a.Quotas[n]))) && (a.PathParams != nil ==> forall(n, string, in(n, a.PathParams) ==> in(n, a.parsedPathParams) && a.parsedPathParams[n] == b64(a.PathParams[n]))) && (a.GatewayConfig != "" ==> a.parsedGatewayConfig == b64(a.GatewayConfig)) && (a.Metrics != "" ==> a.parsedMetrics == b64(a.Metrics))
+//@ ghost func payloadOK(a *ConfigurationPayload) bool = a != nil && a.parsedFlows != nil && a.parsedQuotas != nil && a.parsedPathParams != nil && a.parsedFlows != a.parsedQuotas && a.parsedFlows != a.parsedPathParams && a.parsedQuotas != a.parsedPathParams
+
+//@ func (*ConfigurationPayload).ParsePayload
+//@   prop C08
+//@   requires payloadOK(applyFlows)
+//@   modifies mapof(applyFlows.parsedFlows), mapof(applyFlows.parsedQuotas), mapof(applyFlows.parsedPathParams), applyFlows.parsedGatewayConfig, applyFlows.parsedMetrics
+//@   ensures[every-given-section-decoded] result == nil ==> decodedOK(applyFlows)
+
+//@ func (*ConfigurationPayload).SavePayloadContentToDisk
+//@   prop C08
+//@   requires applyFlows != nil && fileSysOp != nil
+//@   modifies fsdom, fsys
+//@   ensures[flows-on-disk] result == nil && applyFlows.Flows != nil ==> forall(n, string, in(n, applyFlows.parsedFlows) ==> fsdom[flowPath(n)] && exists(n2, string, in(n2, applyFlows.parsedFlows) && flowPath(n2) == flowPath(n) && fsys[flowPath(n)] == applyFlows.parsedFlows[n2]))
+//@   ensures[quotas-on-disk] result == nil && applyFlows.Quotas != nil ==> forall(n, string, in(n, applyFlows.parsedQuotas) ==> fsdom[quotaPath(n)] && exists(n2, string, in(n2, applyFlows.parsedQuotas) && quotaPath(n2) == quotaPath(n) && fsys[quotaPath(n)] == applyFlows.parsedQuotas[n2]))
+//@   ensures[path-params-on-disk] result == nil && applyFlows.PathParams != nil ==> forall(n, string, in(n, applyFlows.parsedPathParams) ==> fsdom[paramsPath(n)] && exists(n2, string, in(n2, applyFlows.parsedPathParams) && paramsPath(n2) == paramsPath(n) && fsys[paramsPath(n)] == applyFlows.parsedPathParams[n2]))
+//@   ensures[gateway-config-on-disk] result == nil && applyFlows.GatewayConfig != "" ==> fsdom[gatewayPath()] && fsys[gatewayPath()] == applyFlows.parsedGatewayConfig
+//@   ensures[metrics-config-on-disk] result == nil && applyFlows.Metrics != "" ==> fsdom[metricsPath()] && fsys[metricsPath()] == applyFlows.parsedMetrics
